@@ -20,7 +20,7 @@ func init() {
 			"no key of that literal carries a field the running program can write unless it is emptied afterwards (R30b); the snapshots are taken only in the first-reset block, are carried " +
 			"over themselves, and didReset is set on every path (R30c). For incremental use: Run calls Reset only on a Runner that was never reset and refreshes the expansion options before " +
 			"executing anything (R30d); every runtime write to the option table is followed by updateExpandOpts on every path to the function's exit, so the rest of a whole-file run sees what " +
-			"a next Run call would see (R30e); storage that a snapshot aliases (the positional parameters) is never written in place (R30f); every successful overlayEnviron.Set leaves an entry in the overlay, which is what Run's additive update of Runner.Vars relies on (R30g).",
+			"a next Run call would see (R30e); storage that a snapshot aliases (the positional parameters) is never written in place (R30f); every successful overlayEnviron.Set leaves an entry in the overlay, which is what Run's additive update of Runner.Vars relies on (R30g). Run stores, around the node, only into per-Run bookkeeping or what Runner.stmt sets identically (R30h).",
 		NotDecided:  "that the program-visible effect of each carried value is the same as on a new Runner (value-level); the incremental clause beyond option refresh (traps, `exit` inside functions).",
 		Assumptions: []string{"Runner fields are written only through selector assignments, address-taking and composite literals (no reflection/unsafe in package interp: checked by C29)"},
 		Controls:    c30Controls,
